@@ -33,6 +33,23 @@ def gen_cases(tier, seed):
             ls[0] = 3
         tp = list(bases.type_patterns(nsh)[(i // 2) % (2 ** nsh)]) if i % 2 else None
         shells, classes = bases.rand_basis(rng, ls, types=tp, scale=1.0, emax_fn=lambda l: min(bases.cap(l), 500.0), Kmax=3, Mmax=2)
+        if i % 6 == 4:
+            # two shells at a separation where their Gaussian product factor exp(-mu R^2) is 1e-3 .. 1e-10: small, but far
+            # above the 1e-8 bound once multiplied by the density matrix; the direction is generic or a body diagonal
+            la_, lb_ = int(rng.integers(0, 4)), int(rng.integers(0, 4))
+            t_ = float(rng.uniform(7.0, 23.0))
+            wp, wcls = bases.window_pair(rng, la_, lb_, tmin=t_, tmax=t_ + 1.0, emin=0.1, emax=5.0)
+            if i % 12 == 4:
+                a_, b_ = np.array(wp[0]["c"]), np.array(wp[1]["c"])
+                R_ = float(np.linalg.norm(b_ - a_))
+                sg = rng.choice([-1.0, 1.0])
+                wp[1]["c"] = [float(v) for v in a_ + sg * R_ / np.sqrt(3.0) * np.ones(3) * (1.0 + 0.05 * rng.normal(size=3))]
+            for w_, t__ in zip(wp, (tp or ["c", "p"])[:2] if nsh >= 2 else "cp"):
+                w_["t"] = t__
+            shells = wp + shells[2:]
+            nsh = len(shells)
+            ls = [s_["l"] for s_ in shells]
+            classes = sorted(set(classes) | set(wcls[:1]))
         nnuc = int(rng.integers(1, 6))
         nuc = [list(shells[k % nsh]["c"]) if k < nsh and rng.random() < 0.7 else [float(v) for v in rng.normal(size=3) * 1.5] for k in range(nnuc)]
         Z = [float(v) for v in np.exp(rng.uniform(np.log(0.1), np.log(100), size=nnuc)) * rng.choice([-1.0, 1.0], size=nnuc, p=[0.35, 0.65])]
@@ -55,6 +72,9 @@ def gen_cases(tier, seed):
                 p = a + rng.normal(size=3) * 1.2
                 pcl.add("pt:generic")
             pts.append([float(v) for v in p])
+        if npts >= 2 and i % 7 == 3:
+            pts[-1] = list(pts[0])  # the same point listed twice
+            pcl.add("pt:duplicate")
         if i % 5 == 2:
             # Boys window: points where (a+b)|P-C|^2 of the dominant primitive pairs of the highest-l shell is 15 .. 45
             hs = max(shells, key=lambda s_: s_["l"])
@@ -78,6 +98,9 @@ def gen_cases(tier, seed):
                 x = float(pos[int(q * (len(pos) - 1))])
                 thr += [x * (1 - 1e-6), x * (1 + 1e-6)]
             thr.append(float(rng.uniform(pos[0], pos[-1])))
+        if np.any(d == 0):
+            # a point exactly on a nucleus: any positive threshold, however small, leaves that nucleus out
+            thr += [1e-12, 1e-9, float(10.0 ** rng.uniform(-7, -3))]
         cases.append({"shells": shells, "points": pts, "nuc": nuc, "Z": Z, "dm": dm, "transform": T, "thresholds": thr,
                       "classes": classes + sorted(pcl) + [tcls, dcls, "nnuc:%d" % nnuc] + (["Z:negative"] if min(Z) < 0 else []) + (["Z:big"] if max(abs(z) for z in Z) > 5 else []),
                       "cost": len(pts) * sum((3 + a + b) ** 3 * len(x["e"]) * len(y["e"]) for x, a in zip(shells, ls) for y, b in zip(shells, ls))})
